@@ -256,6 +256,7 @@ func runC03(c *Check) {
 			}
 		}
 	}
+	ruleForeignKeyNilChecked(c, p, depth)
 	for in, fn := range allSinks {
 		if !covered[in] {
 			c.Bad("C03-R5", "unaccounted sink in "+fnShort(fn), fnName(fn), p.InstrPos(in), "a header/data sink (sync channel send or SetDAIncluded) outside every worker loop's admission path", nil)
@@ -316,5 +317,61 @@ func ruleP2PValidateHook(c *Check, p *Prog) {
 		c.OK("C03-R3", inst+" ⟂ facts", fnName(fn), pos, "accepting paths entail Verify("+key+", payload(&h.Header), h.Signature) and KeyAddress("+key+") = h.ProposerAddress; with Header.Verify's proposer-address equality a light node accepts only keys with the trusted header's address", true)
 	} else {
 		c.Bad("C03-R3", inst+" ⟂ facts", fnName(fn), pos, fmt.Sprintf("accepting paths of the P2P validation hook do not entail signature verification (verified=%v) under a key bound to the proposer address (bound=%v); facts: %s", verified, bound, strings.Join(factStrings(facts), " ; ")), nil)
+	}
+}
+
+// ruleForeignKeyNilChecked (C03-R6): an item decoded from third-party bytes may carry no signer
+// key at all (FromProto leaves Signer.PubKey nil when the sub-message or its key is absent). A
+// method invoked on that nil interface panics, and the loops that examine DA / P2P material run
+// without recover: one junk blob would halt the node at that DA height on every restart.
+func ruleForeignKeyNilChecked(c *Check, p *Prog, depth int) {
+	rule := "C03-R6"
+	c.Doc(rule, "NG: in the loops that examine DA-layer and P2P material, every method invoked on an item's Signer.PubKey (directly or inside a helper it is passed to) is reached only through a non-nil test of that key — a blob without a key is refused, it does not panic the loop.")
+	n := 0
+	seen := map[string]bool{}
+	for _, l := range []string{"RetrieveLoop", "HeaderStoreRetrieveLoop", "DataStoreRetrieveLoop", "SyncLoop"} {
+		root := p.MustFunc(mgrM(l))
+		g := BuildECFG(p, root, ExpandOpts{MaxDepth: depth})
+		for _, nd := range g.Select(func(nd *Node) bool {
+			cc := CallCommonOf(nd)
+			if cc == nil || !cc.IsInvoke() || inSubmitter(nd) {
+				return false
+			}
+			nt, ok := cc.Value.Type().(*types.Named)
+			if !ok || nt.Obj().Name() != "PubKey" {
+				return false
+			}
+			rt := TermOf(cc.Value, nd.Ctx)
+			return rt != nil && strings.HasSuffix(rt.String(), ".Signer.PubKey")
+		}) {
+			cc := CallCommonOf(nd)
+			key := TermOf(cc.Value, nd.Ctx).String()
+			item := "header"
+			if strings.Contains(key, "SignedData") {
+				item = "signed data"
+			}
+			inst := fmt.Sprintf("%s ⟂ %s key.%s in %s", l, item, cc.Method.Name(), fnShort(nd.Ctx.Fn))
+			if seen[inst] {
+				continue
+			}
+			seen[inst] = true
+			n++
+			facts := g.FactsAt(nodeSet([]*Node{nd}), 3)
+			ok := false
+			for _, f := range facts {
+				t, pol := normFact(f.Cond, f.Pol)
+				if t.Op == "bin" && len(t.Args) == 2 && t.Args[1].Name == "nil" && t.Args[0].String() == key && ((t.Name == "!=" && pol) || (t.Name == "==" && !pol)) {
+					ok = true
+				}
+			}
+			if ok {
+				c.OK(rule, inst, fnName(nd.Ctx.Fn), p.InstrPos(nd.In), "reached only when "+trunc(key, 70)+" != nil", true)
+			} else {
+				c.Bad(rule, inst, fnName(nd.Ctx.Fn), p.InstrPos(nd.In), "a method is invoked on the signer key of a decoded item without a non-nil test of that key on every path: a third-party blob without a key makes the loop panic (nil interface), and it panics again at the same DA height after every restart", nil)
+			}
+		}
+	}
+	if n < 3 {
+		c.Unk(rule, "anchor-count", "", "", fmt.Sprintf("anchor lost: only %d invocations on a decoded item's signer key found in the examining loops", n))
 	}
 }
